@@ -147,6 +147,7 @@ type schedReader struct {
 	sizes   []int
 	i       int
 	eofWith bool // deliver the final bytes together with io.EOF
+	empties int  // if > 0: every empties-th call returns (0, nil) — legal for an io.Reader, never twice in a row
 	reads   int
 }
 
@@ -156,6 +157,9 @@ func (s *schedReader) Read(p []byte) (int, error) {
 		return 0, io.EOF
 	}
 	if len(p) == 0 {
+		return 0, nil
+	}
+	if s.empties > 0 && s.reads%s.empties == 0 {
 		return 0, nil
 	}
 	n := 1
@@ -190,9 +194,17 @@ type faultReader struct {
 	bytewise bool
 	forever  bool
 	withData bool // deliver the last good bytes together with the error
+	err      error // the error to fail with (default errInjected)
 	failed   int
 	calls    int
 	budget   int
+}
+
+func (f *faultReader) fail() error {
+	if f.err != nil {
+		return f.err
+	}
+	return errInjected
 }
 
 func (f *faultReader) Read(p []byte) (int, error) {
@@ -213,13 +225,13 @@ func (f *faultReader) Read(p []byte) (int, error) {
 		f.k -= n
 		if f.k == 0 && f.withData {
 			f.failed++
-			return n, errInjected
+			return n, f.fail()
 		}
 		return n, nil
 	}
 	if f.failed == 0 || f.forever {
 		f.failed++
-		return 0, errInjected
+		return 0, f.fail()
 	}
 	return 0, io.EOF
 }
